@@ -125,6 +125,20 @@ def run(run: Run):
                 run.violation(f"proof accepted under a statement whose generator {tag} is another point (extension degree {s['_T']}): that generator's encoding never reaches the transcript",
                               {"kind": "session", "spec": sessions.strip(s), "verify": vi})
     sessions.run_sessions(run, tspecs, t_oracle, relevant=16 | 128, name="c11t")
+    # (4d) the parameter set as a STATEMENT carries it (RangeStatement::init(params, m commitments).generators — the object prover and verifier read)
+    # is the same set: same number of generators, same points, whatever the number of commitments
+    vias = [(b_, c_, t_, m_) for (b_, c_, t_) in [(8, 2, 1), (4, 8, 2), (16, 8, 3), (64, 4, 6), (1, 2, 1), (2, 32, 4)] for m_ in sorted({1, max(1, c_ // 2), c_})]
+    direct = {(r_["bits"], r_["cap"], r_["T"]): r_ for r_ in recs if "G" in r_}
+    for (b_, c_, t_, m_), r_ in zip(vias, run_harness(["gens"], [{"bits": b_, "cap": c_, "T": t_, "table": False, "via_statement": m_} for (b_, c_, t_, m_) in vias])):
+        rp = {"kind": "gens", "spec": {"bits": b_, "cap": c_, "T": t_, "table": False, "via_statement": m_}}
+        d_ = direct.get((b_, c_, t_))
+        run.count(["via-statement", b_, c_, t_, m_], {"check": "generators read back from a statement", "bits": b_, "capacity": c_, "T": t_, "commitments": m_})
+        run.bump("via statement")
+        if "error" in r_ or d_ is None:
+            run.violation(f"no generators could be read from a statement of {m_} commitment(s) over the ({b_}, {c_}) parameter set: {r_.get('error')}", rp)
+        elif any(r_[k_] != d_[k_] for k_ in ("G", "Hv", "Gb", "H", "Gb_compressed", "H_compressed")):
+            run.violation(f"the ({b_}, {c_}, T={t_}) parameter set carried by a statement of {m_} commitment(s) hands out {len(r_['G'])} + {len(r_['Hv'])} vector generators, "
+                          f"the set given to its constructor {len(d_['G'])} + {len(d_['Hv'])}: generators missing or different", rp)
     # (4a) party indices beyond one byte (a 512-party parameter set)
     from lib import gens_hi
     gens_hi.check_high_parties(run, quick, "c11hi")
